@@ -39,6 +39,8 @@ def norm(v):
 
 def corr(ctx, backend, op, margs, iargs=None, check=None, tags=()):
     """one correspondence case: implementation op == model op.  Returns None or a failure dict."""
+    if getattr(ctx, 'search', False) or ctx.model is None:
+        return None          # violation search: only the independent oracle counts
     iargs = margs if iargs is None else iargs
     got = impl(backend).OPS[op](*iargs)
     want = ctx.model.call(op, *margs)
